@@ -32,8 +32,8 @@ THEOREMS = [
     # `TreeSmoother.__call__` as TRANSLATED (Gen/AlgoResampleTree.lean `smooth_tree`): the loop is a fold over the branches; on every well-formed tree every branch ends up smoothed from its ORIGINAL rows, end points / root / furcations / tips keep their coordinates
     "RefineSmoothTree.for1_step", "RefineSmoothTree.for1_loop", "RefineSmoothTree.smooth_tree_eq", "C16Tree2.stepCol_frame", "C16Tree2.foldl_gather", "C16Tree2.pairwise_tree", "C16Tree2.good_tree", "C16Tree2.generated_smooth_tree", "C16Tree2.generated_smooth_tree_endpoints", "C16Tree2.foldl_perm", "C16Tree2.generated_smooth_tree_order",
     # `Rep` derived: every ranked table represents a rose tree; the branch tree of a well-formed tree is ranked (preorder position); the driver theorem without `Rep`
-    "RefineAsm.rep_exists", "C16Tree.rep_of_ranked", "C16Tree2.branch_pre_lt", "C16Tree.branchTree_ranked", "C16Tree.generated_resample_tree_wf",
-    "RefineAsm.rep_exists_sized", "RefineAsm.Desc.disjoint", "C16Tree.rep_of_ranked_sized", "C16Tree.branches_length_le", "C16Tree.generated_resample_tree_wf_full",
+    "RefineAsm.rep_exists", "C16Tree.rep_of_ranked", "C16Tree2.branch_pre_lt", "C16Tree.branchTree_ranked", "C16Tree.generated_resample_tree_wf_rootfuel_partial",
+    "RefineAsm.rep_exists_sized", "RefineAsm.Desc.disjoint", "C16Tree.rep_of_ranked_sized", "C16Tree.branches_length_le", "C16Tree.generated_resample_tree_wf",
     "C16.pairArgmin_spec", "C16.pair_step_inv", "C16.pair_exact", "C16.pair_step_loc", "C16.pair_same_place",
 ]
 TRUSTED = ["hand-written rational models Model/Resample.lean of np.interp / linspace / arange, the two branch resamplers, the moving-average smoother and the "
